@@ -195,12 +195,14 @@ pub fn gen_bursts(tier: Tier) -> BoxedStrategy<Scenario> {
         .prop_map(|(mut sc, w)| {
             // every fault ends well before the disconnect timeout AND before a sender's 128-frame
             // window of unacknowledged inputs fills up (a spectator link whose acks are lost for more
-            // than 128 frames is disconnected by design, see C18): total outage time <= 1.8 s
+            // than 128 frames is disconnected by design, see C18): total outage time + round trip + one retry <= 1.8 s
             let total: u32 = sc.ops.iter().map(|o| if let Op::Outage { len_ms, .. } = o { *len_ms } else { 0 }).sum();
-            if total > 1800 {
+            // the acknowledgements that end the drought need a round trip (and up to one 200 ms retry) on top
+            let cap = 1800u32.saturating_sub(2 * sc.link.lat_max as u32 + 200).max(300);
+            if total > cap {
                 for o in sc.ops.iter_mut() {
                     if let Op::Outage { len_ms, .. } = o {
-                        *len_ms = (*len_ms as u64 * 1800 / total as u64).max(50) as u32;
+                        *len_ms = (*len_ms as u64 * cap as u64 / total as u64).max(50) as u32;
                     }
                 }
             }
